@@ -249,7 +249,7 @@ def _findall(element, xpath, namespaces):
 
 
 #: Integer attribute values as XML schema describes them, unlike ``int()`` without underscores and non ASCII digits.
-_ODS_INTEGER_REGEX = re.compile(r"^\s*[+-]?[0-9]+\s*$")
+_ODS_INTEGER_REGEX = re.compile(r"^[ \t\r\n]*[+-]?[0-9]+[ \t\r\n]*$")
 
 
 def _ods_int(integer_text):
@@ -260,7 +260,7 @@ def _ods_int(integer_text):
     """
     if _ODS_INTEGER_REGEX.match(integer_text) is None:
         raise ValueError("invalid integer number: %r" % integer_text)
-    return int(integer_text)
+    return int(integer_text.strip(" \t\r\n"))
 
 
 def _ods_element_text(element, location):
